@@ -14,7 +14,8 @@ the string lower-cased, decoded, minus whole irrelevant labels / a leading `amp-
 the port text's value unless 80 / 443; the path is a subsequence of the resolved path text; the
 query items are a subsequence of the unescaped items of the query text
 (`normalize_only_deletes_string`).  An unparseable string is returned as it is
-(`normalize_unparseable_string`, every string; `normalize_bad_port_string`, the class).
+(`normalize_unparseable_string`, every string; `normalize_bad_port_string`, the class); that no
+exception escapes: `Props/C05Total.lean`.
 -/
 set_option linter.unusedSimpArgs false
 set_option linter.unusedVariables false
@@ -51,10 +52,6 @@ theorem normalize_bad_port_string (puny : Str → Str) (o : Normalize.Opts) (ir 
   rw [normalizeUrlString_cleaned, hg.reaches, normCleaned_str puny o g hg.wf hg.noUnsafe]
   unfold normG UrlG.parsed
   rw [hpo]; rfl
-
-/-- totality on strings: a string in, a string out, no error value -/
-theorem normalize_total_string (puny : Str → Str) (platform : Str → Str) (o : Normalize.Opts) (ir : Bool)
-    (u : Str) : ∃ s : Str, normalizeUrlString puny platform o ir u = s := ⟨_, rfl⟩
 
 /-- **`normalize_url` only deletes — on strings**: for every string of the class the result
 tuple is glued from components `c` such that
